@@ -47,11 +47,11 @@ func fresh(x any) bool                           { return true }
 // Post-processing of pretty output, as a call-sequence contract: trim the whole text, split it at line breaks, trim
 // trailing spaces (only spaces) of every line in place, join the same lines again. No line is dropped, added or reordered.
 //@ func cleanEmptyLines(code)
-//@   props C06 C14 C11 C15 C07
+//@   props C06 C14 C11 C15 C07 C08
 //@   loop 1 invariant [frame] len(lines) == atEntry(len(lines))
-//@   loop 1 before [mechanism@C06,C15,C07] fullSeq(evCall("strings.TrimSpace"), evCall("strings.Split")) && callArg[string]("strings.TrimSpace", 0, 0) == code && callArg[string]("strings.Split", 0, 0) == callResult[string]("strings.TrimSpace", 0) && callArg[string]("strings.Split", 0, 1) == "\n"
-//@   loop 1 each [mechanism@C06,C15,C07] fullSeq(evCall("strings.TrimRight")) && callArg[string]("strings.TrimRight", 0, 1) == " " && callArg[string]("strings.TrimRight", 0, 0) == line && lines[i] == callResult[string]("strings.TrimRight", 0)
-//@   ensures [mechanism@C06,C15,C07] fullSeq(evCall("strings.Join")) && callArg[string]("strings.Join", 0, 1) == "\n" && result == callResult[string]("strings.Join", 0) && len(callArg[[]string]("strings.Join", 0, 0)) == len(callResult[[]string]("strings.Split", 0))
+//@   loop 1 before [mechanism@C06,C15,C07,C08] fullSeq(evCall("strings.TrimSpace"), evCall("strings.Split")) && callArg[string]("strings.TrimSpace", 0, 0) == code && callArg[string]("strings.Split", 0, 0) == callResult[string]("strings.TrimSpace", 0) && callArg[string]("strings.Split", 0, 1) == "\n"
+//@   loop 1 each [mechanism@C06,C15,C07,C08] fullSeq(evCall("strings.TrimRight")) && callArg[string]("strings.TrimRight", 0, 1) == " " && callArg[string]("strings.TrimRight", 0, 0) == line && lines[i] == callResult[string]("strings.TrimRight", 0)
+//@   ensures [mechanism@C06,C15,C07,C08] fullSeq(evCall("strings.Join")) && callArg[string]("strings.Join", 0, 1) == "\n" && result == callResult[string]("strings.Join", 0) && len(callArg[[]string]("strings.Join", 0, 0)) == len(callResult[[]string]("strings.Split", 0))
 
 //@ func New()
 //@   props C14 C11
